@@ -9,6 +9,8 @@ INVARIANT Bounded
 INVARIANT NoForceDuringCollect
 INVARIANT ExactlyOncePerMatch
 INVARIANT ErrorHasContext
+INVARIANT BeginOrder
+INVARIANT LocalsClearedPerMatch
 INVARIANT GlobalsRule
 INVARIANT Reported
 PROPERTY AttrsStable
